@@ -136,7 +136,13 @@ WRAP:
 			added = true
 			t = time.Date(t.Year(), t.Month(), t.Day(), 0, 0, 0, 0, loc)
 		}
+		prev := t
 		t = t.AddDate(0, 0, 1)
+		// A calendar day that the zone skips altogether (Pacific/Apia has no 2011-12-30) can send AddDate back to
+		// the instant it started from: move on by a day of elapsed time instead of looping for ever.
+		if !t.After(prev) {
+			t = prev.Add(24 * time.Hour)
+		}
 		// Notice if the hour is no longer midnight due to DST.
 		// Add an hour if it's 23, subtract an hour if it's 1.
 		if t.Hour() != 0 {
